@@ -231,7 +231,7 @@ PROPS = {
         level_text="Group laws for all four pose types as theorems about the regenerated definitions: (+) = product of homogeneous matrices (code's to_matrix; rotation block proved orthogonal), "
         "a(-)b = b^-1(+)a, two-sided inverse and identity, associativity, pose(+)point = matrix action (and compatible with composition), "
         "p[+]delta = p(+)expmap(delta) incl. the documented |dv|>1 fallback; SE(2) equalities exact including the wrapped angle.",
-        level_note="Trusted: Lean kernel, Mathlib, py2lean translator (validated at Float every run). __iadd__ (base_pose.py:155-169, `return self + other`) is not translated; its delegation is exercised by the search oracle only.",
+        level_note="Trusted: Lean kernel, Mathlib, py2lean translator (validated at Float every run). __iadd__ (base_pose.py) is translated per class and operand kind (iadd, iadd_boxplus).",
     ),
     "C11": dict(
         modules=["GraphSlam.Props.C11"],
